@@ -83,6 +83,10 @@ TABLE = {
    text='differential monitor: one generated script (configuration + operations that refer to session ids symbolically) is executed against the threaded class and against its asyncio twin and the two normalised traces must be identical. Five script families: Server/Manager vs AsyncServer/AsyncManager on the direct-drive harness (client packets valid and malformed, partial binary packets, API calls incl. emit/call()/rooms/sessions/disconnect, handler faults, transport losses); Client vs AsyncClient on the scripted engine.io transport (connect plans with refusals/silence, server packets valid and malformed, emit/send/call, losses with reconnection plans, back-off waits and attempt parameters); PubSubManager vs AsyncPubSubManager on the in-memory channel (API calls, injected cluster messages of every method and malformed ones, own-host echoes; published messages compared); Namespace/ClientNamespace helper forwarding and trigger_event dispatch; SimpleClient vs AsyncSimpleClient (receive/emit/call/loss/reconnect sequences)',
    note='compares frames per peer in per-peer order, handler/callback invocations with arguments, API results with type distinction (tuple/list, int/float/bool, bytes/str) or exception types, types of contained errors, pub/sub messages, reconnection attempts and back-off waits; the global interleaving of sends to different peers is not compared; a defect present in both implementations is invisible by construction (the other properties cover it); one known finding (vestigial room parameter of ClientNamespace.send)',
    tech='runtime monitoring: differential trace oracle (threaded vs asyncio twin on the same generated script)'),
+ 'C18': dict(cat='exploration',
+   text='three monitors on real Server/AsyncServer objects instrumented with the real sio.instrument(): (A) credential gate - generated auth payloads (exact, permuted, absent, None, non-dicts, sub/supersets, type-confused, nested, other credential sets) through real CONNECT packets against auth configured as dict / list of dicts / sync predicate / async predicate / False, crossed with mode and read_only; the answer must match the documented predicate and, after every attempt, the admin namespace must list exactly the accepted sessions and a probe broadcast must reach exactly the accepted transports; (B) read-only - an authenticated admin sends emit/join/leave/_disconnect requests: no frame to an application client, no change of its rooms or connection, no application handler call (with read_only off the same requests do have effect: positive control); (C) transparency - the application scripts of the C14 server family run on a plain server and on an instrumented one (development/production, admin connected or not); the application clients\' normalised traces must be identical',
+   note='direct-drive transports (the HTTP/websocket byte counters of the instrumentation are not exercised); server_stats task parked on virtual sleep; transient frames sent to a to-be-refused admin about itself during its connect handler are counted, not judged; events named connect/disconnect sent by application clients are outside the application-scenario domain',
+   tech='runtime monitoring: predicate oracle on CONNECT answers + membership probes, inertness monitor with positive control, differential trace oracle (instrumented vs plain server)'),
 }
 # filled in as checks are built; see bottom of file for the not-built reason
 
